@@ -30,7 +30,7 @@ import (
 
 func TestMain(m *testing.M) {
 	stats.Init("C17")
-	stats.Rule("(A) pattern in {pubsub with 1-3 SUB sockets x 1-2 contexts, xpub, bus mesh, star chain, survey fan-out, pair, req/rep with 5 ms retries, pair1 through a Device} x transport {inproc,tcp,ipc,ws} x 5-40 messages with pool-class boundary sizes, holders keep 1-all received messages across 0-60 further recycled messages and mutate some; (B) send outcome in {timeout, closed, no-peers, best-effort, success} x 12 sending constructors; (C) NewMessage sizes 0..70000 after dirty releases. Also: (E) READQ-LEN changed 1-3 times with a full receive queue on 9 patterns. Non-trivial: >=2 holders of one publication, or a failed Send, or >=1 pool class reused while held; distinct by full configuration")
+	stats.Rule("(A) pattern in {pubsub with 1-3 SUB sockets x 1-2 contexts, xpub, bus mesh, star chain, survey fan-out, pair, req/rep with 5 ms retries, pair1 through a Device} x transport {inproc,tcp,ipc,ws} x 5-40 messages with pool-class boundary sizes, holders keep 1-all received messages across 0-60 further recycled messages and mutate some; (B) send outcome in {timeout, closed, no-peers, best-effort, success} x 12 sending constructors; (C) NewMessage sizes 0..70000 after dirty releases. Also: (E) READQ-LEN changed 1-3 times with a full receive queue on 9 patterns. Non-trivial: >=2 holders of one publication, or a failed Send, or >=1 pool class reused while held; distinct by full configuration. Round 5: distinct bodies in the failed-send retry (the retried message itself must arrive; everything received equals a message sent)")
 	stats.Assume("the ledger observes Free/Clone/MakeUnique/Dup/NewMessage only; reads of a released buffer show up as poison (0xDB) in data that reaches an application")
 	rc := m.Run()
 	stats.Flush()
